@@ -89,6 +89,13 @@ Definition C11_delivery_liveness_statement : Prop :=
     (forall n l, internal l = true -> step true (sts n) l <> None -> exists k, n <= k /\ internal (sched k) = true) ->
     pending (sts 0) m -> exists n, In m (got (gens (sts n) c)).
 
+(* --- each request reaches the peer at most once (all connections together), and then it is nowhere else ---- *)
+Theorem C11_at_most_once : forall ls s m g g', run true init ls = Some s -> g < ngen s -> g' < ngen s ->
+  In m (got (gens s g)) -> In m (got (gens s g')) ->
+  g = g' /\ cnt m (got (gens s g)) = 1 /\ ~ In m (sendQ s) /\ ~ In m (failQ s) /\
+  (forall h, h < ngen s -> holds (sp (gens s h)) <> Some m).
+Proof. exact ClientConnProofs.at_most_once. Qed.
+
 (* --- the tie: the specification machine that validates the recorded logs is sound for the model ---------- *)
 (* the log of EVERY run of the model (all schedules; the client itself never gives up a connection: no
    TarsClient.Close, no idle close — the harness's scripts contain neither) is accepted by [c11_accepts];
@@ -123,6 +130,7 @@ Print Assumptions C11_delivery.
 Print Assumptions C11_delivery_inevitable.
 Print Assumptions C11_call_after_known_close.
 Print Assumptions C11_delivery_example.
+Print Assumptions C11_at_most_once.
 Print Assumptions C11_spec_machine_sound.
 Print Assumptions C11_failq_capacity.
 Print Assumptions C11_no_write_to_dead_literal_refuted.
